@@ -1074,7 +1074,7 @@ class PythonTypesBackend(CodeBackend):
         self.emit()
 
     def _generate_redactor(self, validator_name, redactor):
-        regex = "'{}'".format(redactor.regex) if redactor.regex else 'None'
+        regex = repr(redactor.regex) if redactor.regex else 'None'
         if isinstance(redactor, RedactedHash):
             self.emit("{}._redact = bv.HashRedactor({})".format(validator_name, regex))
         elif isinstance(redactor, RedactedBlot):
